@@ -3,6 +3,7 @@ import TabulaModel.Model.FontDecode
 import TabulaModel.Model.EncodingRef
 import TabulaModel.Model.CMapRender
 import TabulaModel.Model.FormFonts
+import TabulaModel.Lemmas.CMapArrangeDefs
 /-!
 Line protocol of property C07 (see harness/c07). Byte strings are hex (`-` = empty),
 scalar values are lower-case hex numbers separated by single spaces (`-` = no scalar).
@@ -148,6 +149,33 @@ def diffs? (s : String) : Option FontDecode.Diffs :=
 def fontLine (k : List Nat) (f : FontDecode.Font) : String :=
   s!"{hexOut k}={hexOut f.encoding}:{if f.toUnicode.isSome then "T" else "F"}:{diffsOut f.differences}"
 
+
+/-! ### `c07.rprog` / `c07.spec` / `c07.spectext`: any arrangement of entries into sections -/
+
+/-- one item: `c<code>:<text>`, `o<lo>:<t/t/..>` or `a<lo>:<t/t/..>` -/
+def item? (s : String) : Option Item :=
+  match s.toList with
+  | k :: rest =>
+    match (String.ofList rest).splitOn ":" with
+    | [lo, ts] => do
+      let lo ← hexNat? lo
+      let ts ← (ts.splitOn "/").mapM scalarsC?
+      if k = 'c' then (match ts with | [t] => some (.char lo t) | _ => none)
+      else if k = 'o' then some (.offset ⟨lo, ts⟩)
+      else if k = 'a' then some (.array ⟨lo, ts⟩)
+      else none
+    | _ => none
+  | [] => none
+
+/-- sections `c=item;item|r=item;..` (`~` = none) -/
+def secs? (s : String) : Option (List Section) :=
+  if s == "~" then some [] else
+  (s.splitOn "|").mapM fun sec => match sec.splitOn "=" with
+    | [k, its] => do
+      let items ← (its.splitOn ";").mapM item?
+      if k = "c" then some ⟨.bfchar, items⟩ else if k = "r" then some ⟨.bfrange, items⟩ else none
+    | _ => none
+
 def optScalars : Option (List Nat) → String
   | some l => "ok " ++ scalars l
   | none => "err"
@@ -214,6 +242,15 @@ def handle (op : String) (args : List String) : String :=
     | _, _, _, _ => "bad-op"
   | "c07.entries", [f, rs] => match form? f, runs? rs with
     | some f, some rs => ";".intercalate ((entriesFor f rs).map fun e => s!"{hexNat e.1}:{scalarsC e.2}")
+    | _, _ => "bad-op"
+  | "c07.rprog", [pol, w, ss] => match policy? pol, w.toNat?, secs? ss with
+    | some p, some w, some ss => hexOut (renderProgram p w ss)
+    | _, _, _ => "bad-op"
+  | "c07.spec", [w, ss, d] => match w.toNat?, secs? ss, unhexN d with
+    | some w, some ss, some d => scalars (CMapArrange.specDecode ss w (d.length + 1) d)
+    | _, _, _ => "bad-op"
+  | "c07.spectext", [ss, c] => match secs? ss, hexNat? c with
+    | some ss, some c => scalars (CMapArrange.specText ss c)
     | _, _ => "bad-op"
   | "c07.ext", [objs, pres, content, t] =>
     match extObjs? objs, (if pres == "~" then some none else (unhexN pres).map some), unhexN content, nfcTable? t with
